@@ -1,6 +1,7 @@
 """C19 - TLSH / Nilsimsa: well-formed reproducible digests, distances behave as distances."""
 import itertools
 from mc.engine import Sub, InternalError
+from mc.checks.firstuse import firstuse_sub
 from mc.common import ramp, expander
 from mc.refs import lsh as RL
 
@@ -245,8 +246,24 @@ def selftest():
         raise InternalError('reference self-test failed: %r' % (e,))
 
 
+PROP_ = 'C19'
+
+
+def fu_targets():
+    from crysp.nilsimsa import Nilsimsa
+    import crysp.tlsh as TL
+    d = CONTENT['text'](700)
+    t = {}
+    for cfg in ((128, 5, 1), (256, 4, 3), (48, 8, 1), (128, 7, 3)):
+        t['tlsh %d-%d-%d' % cfg] = ((lambda cfg: lambda: mk(cfg)(d))(cfg), RL.tlsh(d, cfg[0], cfg[1], cfg[2], False))
+    t['tlsh module-instance'] = (lambda: TL.tlsh(d), RL.tlsh(d, 128, 5, 1, False))
+    t['nilsimsa 53'] = (lambda: Nilsimsa()(d), RL.nilsimsa(d, 53))
+    t['nilsimsa 17'] = (lambda: Nilsimsa(17)(d), RL.nilsimsa(d, 17))
+    return t
+
+
 def subchecks():
-    return [
+    return [firstuse_sub(PROP_, fu_targets, every=2),
         Sub('tlsh-digests', pts_digest, run_digest, engine='P',
             bound='all 30 configurations (buckets x window x checksum length) x length in {0,1,wnd-1,wnd,49,50,51,255,256,257,300,700} (thorough + 656,657,3199,3200) x 7 contents (constant, 2-symbol, 3-symbol, ramp, text, expander, runs) x force: None vs digest of exactly chklen+2+buckets/4 bytes equal to the model; never an exception'),
         Sub('tlsh-length-byte', pts_lvalue, run_lvalue, engine='D',
